@@ -122,6 +122,12 @@ static void event_handler(int sid) {
 	atomic_fetch_sub(&s->in_handler, 1);
 	logev(EV_HANDLER_END, sid, inv, 0);
 }
+static _Atomic int finalizers_expected, finalizers_seen;
+static void source_finalizer(void *ctxt) {        // C17 part 2: op field = the context the finalizer received, idx = source id, val = tag of the queue it runs on
+	int sid = (int)(long)ctxt - 1;
+	logev(EV_FINAL, (int32_t)(long)ctxt, sid, (int64_t)(long)dispatch_get_specific(&TAGKEY));
+	atomic_fetch_add(&finalizers_seen, 1); fwake_all(&finalizers_seen);
+}
 static void registration_handler(int sid) {
 	src_t *s = &SRC[sid];
 	logev(EV_NOTE, sid, 40, (int64_t)(long)dispatch_get_specific(&TAGKEY));
@@ -213,7 +219,14 @@ void exec_op(op_t *op) {
 		break; }
 	case K_ASYNC: atomic_fetch_add(&pending, 1); logev(EV_CALL, op->id, -1, op->kind); dispatch_async_f(Q[op->a], op, item_f); logev(EV_RET, op->id, -1, 0); break;
 	case K_SYNC: atomic_fetch_add(&pending, 1); logev(EV_CALL, op->id, -1, op->kind); dispatch_sync_f(Q[op->a], op, item_f); logev(EV_RET, op->id, -1, 0); break;
-	case K_RELEASE: break;
+	case K_RELEASE: {        // the application's LAST release of source a; nothing may touch s->ds afterwards
+		int e = 0;             // an inactive object must not be released: activate it first if nobody has
+		if (atomic_compare_exchange_strong(&s->activated, &e, 1)) { logev(EV_CALL, -300 - (int)op->a, (int32_t)op->a, K_ACTIVATE); dispatch_activate(s->ds); atomic_store(&s->activate_done, 1); logev(EV_RET, -300 - (int)op->a, (int32_t)op->a, 0); }
+		else while (!atomic_load(&s->activate_done)) sched_yield();
+		atomic_store(&s->released, 1);
+		logev(EV_CALL, op->id, (int32_t)op->a, op->kind); dispatch_release(s->ds); logev(EV_RET, op->id, (int32_t)op->a, 0);
+		atomic_fetch_add(&s->epoch, 1); fwake_all(&s->epoch);
+		break; }
 	}
 }
 
@@ -296,6 +309,7 @@ static int create_objects(void) {
 		dispatch_source_set_event_handler(s->ds, ^{ event_handler(sid); });
 		if (s->flags & 1) dispatch_source_set_cancel_handler(s->ds, ^{ cancel_handler(sid); });
 		if (s->flags & 8) dispatch_source_set_registration_handler(s->ds, ^{ registration_handler(sid); });
+		if (s->flags & 32) { dispatch_set_context(s->ds, (void *)(long)(sid + 1)); dispatch_set_finalizer_f(s->ds, source_finalizer); atomic_fetch_add(&finalizers_expected, 1); }
 		if (s->type == T_TIMER) do_settimer(s, sid, -1000 - sid, s->a, s->b, s->c);
 		if (s->flags & 2) { atomic_store(&s->activated, 1); logev(EV_CALL, -300 - sid, sid, K_ACTIVATE); dispatch_activate(s->ds); atomic_store(&s->activate_done, 1); logev(EV_RET, -300 - sid, sid, 0); }
 	}
@@ -328,7 +342,7 @@ static void *coordinator(void *arg) {
 	atomic_store(&all_done, 1); pthread_join(jt, 0); atomic_store(&S->janitor_pending, 0);
 	int p; while ((p = atomic_load(&pending)) > 0) fwait(&pending, p);
 	// convergence (C15): every merge made before cancellation must be delivered; a lost wake-up ends in a stuck witness here
-	for (int i = 0; i < MAXSRC; i++) if (SRC[i].used && !dispatch_source_testcancel(SRC[i].ds)) {
+	for (int i = 0; i < MAXSRC; i++) if (SRC[i].used && !atomic_load(&SRC[i].released) && !dispatch_source_testcancel(SRC[i].ds)) {
 		src_t *s = &SRC[i];
 		// (a source cancelled meanwhile - by its own handler or its registration handler - owes nothing any more)
 		if (s->type == T_ADD) { for (;;) { int v = atomic_load(&s->epoch); if (atomic_load(&s->delivered_sum) == atomic_load(&s->merged_sum) || dispatch_source_testcancel(s->ds)) break; fwait(&s->epoch, v); } }
@@ -343,25 +357,28 @@ static void *coordinator(void *arg) {
 	// each such timer has fired once; a timer that never fires leaves the process idle with its deadline long past (stuck witness, S4)
 	int any_timer = 0; for (int i = 0; i < MAXSRC; i++) if (SRC[i].used && SRC[i].type == T_TIMER) any_timer = 1;
 	if (any_timer) { atomic_store(&S->future_stimulus, 1); struct timespec ts = { horizon_ms / 1000, (horizon_ms % 1000) * 1000000 }; nanosleep(&ts, 0); atomic_store(&S->future_stimulus, 0); }
-	for (int i = 0; i < MAXSRC; i++) if (SRC[i].used && SRC[i].type == T_TIMER && !dispatch_source_testcancel(SRC[i].ds) && !atomic_load(&SRC[i].far)) {
+	for (int i = 0; i < MAXSRC; i++) if (SRC[i].used && SRC[i].type == T_TIMER && !atomic_load(&SRC[i].released) && !dispatch_source_testcancel(SRC[i].ds) && !atomic_load(&SRC[i].far)) {
 		for (;;) { int v = atomic_load(&SRC[i].epoch); if (atomic_load(&SRC[i].invocations) >= 1 || dispatch_source_testcancel(SRC[i].ds)) break; logev(EV_NOTE, i, 2, 0); fwait(&SRC[i].epoch, v); }
 	}
 	logev(EV_NOTE, -1, 1, 0);             // end of the observation window
 	// cancel everything that is still live, wait for the cancel handlers (C16 convergence), then release
-	for (int i = 0; i < MAXSRC; i++) if (SRC[i].used) {
+	for (int i = 0; i < MAXSRC; i++) if (SRC[i].used && !atomic_load(&SRC[i].released)) {
 		src_t *s = &SRC[i];
 		if (!dispatch_source_testcancel(s->ds)) { atomic_store(&s->cancelled_by_harness, 1); logev(EV_CALL, -500 - i, i, K_CANCEL); dispatch_source_cancel(s->ds); logev(EV_RET, -500 - i, i, 0); }
 		if (s->flags & 1) { int v; while ((v = atomic_load(&s->cancel_handler_runs)) < 1) fwait(&s->cancel_handler_runs, v); }
 	}
 	for (int i = 0; i < MAXSRC; i++) if (SRC[i].used) {
 		src_t *s = &SRC[i];
+		if (atomic_load(&s->released)) { logev(EV_VAL, i, 8, atomic_load(&s->invocations)); continue; }      // the application gave its reference away: hands off
 		logev(EV_VAL, i, 6, atomic_load(&s->cancel_handler_runs));
 		logev(EV_VAL, i, 7, dispatch_source_testcancel(s->ds));
 		logev(EV_VAL, i, 8, atomic_load(&s->invocations));
 		if (s->fd_w >= 0) close(s->fd_w);
 		if (IS_FD(s->type) && !(s->flags & 1)) { /* no cancel handler: drain the queue before closing the monitored end */ dispatch_sync(Q[s->tq >= 0 ? s->tq : 0], ^{}); }
-		dispatch_release(s->ds);
+		logev(EV_CALL, -700 - i, i, K_RELEASE); dispatch_release(s->ds); logev(EV_RET, -700 - i, i, 0);
 	}
+	// C17 part 2: every source that has a finalizer must get it run (a finalizer that never runs leaves the process idle here: stuck witness)
+	{ int v; while ((v = atomic_load(&finalizers_seen)) < atomic_load(&finalizers_expected)) fwait(&finalizers_seen, v); }
 	for (int q = MAXQ - 1; q >= 0; q--) if (QD[q].used && QD[q].kind != 2) dispatch_release(Q[q]);
 	logev(EV_FINISH, -1, -1, 0);
 	atomic_store(&S->finished, 1);
